@@ -192,6 +192,12 @@ add(property='C12', id='C12-rayfan-view-mutates', status='fixed', commit='259db0
          'place: the reported fan depended on whether it had been drawn',
     reproducer=json.load(open(os.path.join(HERE, 'known_cases', 'C12-rayfan-view.json'))))
 
+add(property='C14', id='C14-solve-nan-poisons', status='fixed', commit='c3b6f18', clause='second_undo_restores_the_start',
+    what='fixed: property=C14 c3b6f18 with a marginal-ray-height solve on the image surface, one objective evaluation at a '
+         'degenerate prescription (least_squares tried radius 0) made the solve add NaN to the vertex positions; every '
+         'later evaluation, the returned lens and the lens after undo() kept the NaN position',
+    reproducer=json.load(open(os.path.join(HERE, 'known_cases', 'C14-solve-nan.json'))))
+
 add(property='C01', id='C01-solve-slope', status='fixed', commit='08843a4', clause='solve_places_marginal_ray',
     what='fixed: property=C01 08843a4 marginal_ray_height solve (and image_solve) used the marginal slope behind the '
          'moved surface: on a powered surface the requested height was missed (two mirrors, R=5: 2.0 instead of 0.0)',
